@@ -30,17 +30,42 @@ def explicit(tier, seed):
                 i += 1
 
 
+def lag_cases(tier, seed):
+    """The service acts on a due retry timer a little late: a branch resumed in-process at the scheduled time still finds its step
+    PENDING. A sibling branch keeps the block running, so the retry is driven by the in-process timer, not by a new invocation."""
+    i = 0
+    for lag in (0.3, 1.0, 2.5):
+        for kind in ("par", "map"):
+            for nfail in (1, 2):
+                script = [{"do": "fail", "cls": "ValueError", "msg": "f%d" % k} for k in range(nfail)] + [{"do": "ok", "val": 7}]
+                retry = {"decisions": [("retry", 1)] * nfail + [("stop",)]}
+                b0 = {"body": [{"k": "step", "script": script, "retry": retry, "sem": "most"}, {"k": "step", "val": "next", "sem": "most"}]}
+                b1 = {"body": [{"k": "step", "script": [{"do": "ok", "val": "busy", "gate": "busy"}]}]}
+                node = {"k": "par", "branches": [b0, b1], "cfg": None} if kind == "par" else {"k": "map", "items": [0, 1], "per_item": [b0, b1], "body": [], "cfg": None}
+                holds = [{"match": {"kind": "gate", "name": "busy"}, "until": {"any": [{"applied": {"Name": "0/b0/0", "Type": "STEP", "Action": "SUCCEED"}},
+                                                                                    {"applied": {"Name": "0/b0/0", "Type": "STEP", "Action": "FAIL"}}]}}]
+                yield {"label": "late-timer-in-process-retry", "prog": {"body": [node, {"k": "step", "val": "end"}]}, "prog_seed": 1500 + i,
+                       "pattern": {"p": "crash_enum"}, "holds": holds, "world": {"complete": {}, "timers": "all", "timer_lag": lag},
+                       "opts": {"idle_s": 0.8, "hang_s": 4.0}, "max_inv": 14}
+                i += 1
+
+
+def explicit_all(tier, seed):
+    yield from explicit(tier, seed)
+    yield from lag_cases(tier, seed)
+
+
 SPEC = Spec(
     PROP,
     level="fault_enumeration",
     gen={"kinds": ["step", "rstep", "rstep", "fstep", "wait", "child", "par", "map"], "most": 1.0},
-    explicit=explicit,
+    explicit=explicit_all,
     quick={"plain": 30, "enum": 10, "rand": 20, "async": 16},
     thorough={"plain": 200, "enum": 120, "rand": 300, "async": 200, "perturb": 60, "k1": 8},
     rule="at-most-once steps (strategies: SDK default / none / scripted k retries / packaged config) x failure scripts (succeed, "
     "fail-k-then-succeed, always fail), at top level and inside parallel branches x EVERY single crash point of the execution "
     "(before/after each API call, at every probe event incl. function entry/exit), plus random programs with random multi-crash and "
-    "asynchronous SIGKILL. Oracle: step-function entries keyed by (position, backend Attempt counter at entry) occur at most once, "
+    "asynchronous SIGKILL; plus retries driven by the in-process timer of a map/parallel whose sibling branch is still running while the service acts on the due timer 0.3-2.5 s late (the refreshed state still says PENDING). Oracle: step-function entries keyed by (position, backend Attempt counter at entry) occur at most once, "
     "and at entry the backend holds the step STARTED. Non-trivial = an at-most-once step function was entered. "
     "A class = (program shape hash, interruption pattern, crash landing event kind).",
     deciding=lambda r: (r.get("stats") or {}).get("c04_entries", 0) > 0,
